@@ -230,4 +230,31 @@ def r16_5(ctx: Ctx) -> RuleResult:
     return rr
 
 
-RULES = [r16_1, r16_2, r16_3, r16_4, r16_5]
+def r16_6(ctx: Ctx) -> RuleResult:
+    """The numbers of a relative pointer are the digits that were written: whatever is converted to the number of
+    steps and to the index offset is the text of the ORIGIN / INDEX group itself, not an edited copy of it
+    (`.strip("0")` also drops trailing zeros: `0+10` becomes +1)."""
+    from .common import expand_locals
+
+    rr = RuleResult("R16.6", "steps and offset are converted from the matched digits themselves", floor=2)
+    fn = ctx.repo.require_func("RelativeJSONPointer._parse")
+    conv = [c for c in calls(fn.node) if callee_name(c) in ("_zero_or_positive", "int") and c.args]
+    seen = set()
+    for c in conv:
+        e = expand_locals(fn.node, c.args[0])
+        groups = [g for g in ast.walk(e) if isinstance(g, ast.Call) and callee_name(g) == "group" and g.args and isinstance(g.args[0], ast.Constant)]
+        if not groups:
+            continue
+        gname = groups[0].args[0].value  # type: ignore[attr-defined]
+        seen.add(gname)
+        if e is groups[0] or ast.dump(e) == ast.dump(groups[0]):
+            rr.ok(fn.loc(c), f"{gname}: `{short(c)}` converts the matched text itself")
+        else:
+            rr.bad(fn, c, f"the {gname} number is converted from `{short(e, 70)}`, an edited copy of the matched digits: the value "
+                   "used is not the value written", construct=f"{gname}: {short(e, 70)}")
+    if not {"ORIGIN", "INDEX"} <= seen:
+        raise AnalysisError(f"R16.6: conversions of the ORIGIN and INDEX groups not found (found {sorted(seen)})")
+    return rr
+
+
+RULES = [r16_1, r16_2, r16_3, r16_4, r16_5, r16_6]
